@@ -191,6 +191,12 @@ def target_key(shape, link) -> str:
 
 def build_parser(shape, variant=0):
     """gamma: shape -> (parser, argv, add results).  Stops at the first link that is not accepted."""
+    p, argv, add_links = build_base(shape, variant)
+    return p, argv, add_links(0, len(shape["links"]))
+
+
+def build_base(shape, variant=0):
+    """gamma: shape -> (parser without links, argv, add_links(i, j) that calls link_arguments for links i..j-1)"""
     GEN.LOG.clear()
     GEN.SERIAL[0] = 0
     objs = sorted(shape["objs"], key=lambda p: (-len(p), p))  # inner classes first
@@ -236,24 +242,28 @@ def build_parser(shape, variant=0):
             else:
                 p.add_argument("--" + dotted(o), type=classes[o])
             argv.append(f"--{dotted(o)}={json.dumps(spec(o))}")
-    results = []
-    for i, l in enumerate(shape["links"]):
-        srckeys = tuple(dotted(s["obj"]) if s["attr"] == "" else dotted(s["obj"]) + "." + s["attr"] for s in l["srcs"])
-        fn = None
-        if l["fn"]:
-            def fn(*args, _i=i + 1):
-                GEN.LOG.append(("fn", _i, args))
-                return ("fnres", _i, args)
-        try:
-            p.link_arguments(srckeys if len(srckeys) > 1 else srckeys[0], target_key(shape, l), fn, apply_on="instantiate")
-            results.append("ok")
-        except ValueError:
-            results.append("rejected")
-            break
-        except Exception as ex:  # anything else is not a rejection
-            results.append("error:" + type(ex).__name__)
-            break
-    return p, argv, results
+    def add_links(lo, hi):
+        results = []
+        for i in range(lo, hi):
+            l = shape["links"][i]
+            srckeys = tuple(dotted(s["obj"]) if s["attr"] == "" else dotted(s["obj"]) + "." + s["attr"] for s in l["srcs"])
+            fn = None
+            if l["fn"]:
+                def fn(*args, _i=i + 1):
+                    GEN.LOG.append(("fn", _i, args))
+                    return ("fnres", _i, args)
+            try:
+                p.link_arguments(srckeys if len(srckeys) > 1 else srckeys[0], target_key(shape, l), fn, apply_on="instantiate")
+                results.append("ok")
+            except ValueError:
+                results.append("rejected")
+                break
+            except Exception as ex:  # anything else is not a rejection
+                results.append("error:" + type(ex).__name__)
+                break
+        return results
+
+    return p, argv, add_links
 
 
 def alpha_value(v, reg, zmap):
@@ -278,20 +288,17 @@ def alpha_value(v, reg, zmap):
     return {"k": "other", "r": repr(v)[:60]}
 
 
-def run_shape(shape, variant=0):
-    """the real code on one shape -> observation {add, ran, failed, log, final, exc}"""
-    try:
-        p, argv, results = build_parser(shape, variant)
-    except Exception as ex:
-        return {"add": ["error:build:" + type(ex).__name__], "ran": False, "failed": False, "log": [], "final": [], "exc": f"{type(ex).__name__}: {ex}"[:300]}
-    ob = {"add": results, "ran": False, "failed": False, "log": [], "final": [], "exc": ""}
-    if results and results[-1] != "ok":
-        return ob
-    ob["ran"] = True
+def zmap_of(shape):
     zmap = {}
     for i, o in enumerate(sorted(shape["objs"])):
         zmap[100 + i] = list(o)
         zmap[cname(o)] = list(o)
+    return zmap
+
+
+def instantiate_once(p, argv, shape, ob):
+    """parse_args + instantiate_classes on the parser as it is now; fills failed / log / final of the observation"""
+    zmap = zmap_of(shape)
     try:
         cfg = p.parse_args(argv)
         GEN.LOG.clear()
@@ -310,7 +317,9 @@ def run_shape(shape, variant=0):
     keep = [ev[2] for ev in GEN.LOG if ev[0] == "new"]  # keep the objects alive so that ids stay unique
     for ev in GEN.LOG:
         if ev[0] == "new":
-            ob["log"].append({"ev": "new", "obj": list(ev[1]), "kw": sorted([k, alpha_value(v, reg, zmap)] for k, v in ev[3].items())})
+            # (parameters that belong to links which are not added yet -- first call of a history -- are left out)
+            mine = {l["param"] for l in shape["links"] if tuple(l["tobj"]) == tuple(ev[1])}
+            ob["log"].append({"ev": "new", "obj": list(ev[1]), "kw": sorted([k, alpha_value(v, reg, zmap)] for k, v in ev[3].items() if k in mine)})
         else:
             ob["log"].append({"ev": "fn", "link": ev[1], "args": [alpha_value(x, reg, zmap) for x in ev[2]]})
     for t in sorted(shape["plains"]):
@@ -325,6 +334,43 @@ def run_shape(shape, variant=0):
             ob["log"].append({"ev": "new", "obj": ["?returned-not-constructed"] + list(o), "kw": []})
     del keep
     return ob
+
+
+def run_shape(shape, variant=0):
+    """the real code on one shape -> observation {add, ran, failed, log, final, exc}"""
+    try:
+        p, argv, results = build_parser(shape, variant)
+    except Exception as ex:
+        return {"add": ["error:build:" + type(ex).__name__], "ran": False, "failed": False, "log": [], "final": [], "exc": f"{type(ex).__name__}: {ex}"[:300]}
+    ob = {"add": results, "ran": False, "failed": False, "log": [], "final": [], "exc": ""}
+    if results and results[-1] != "ok":
+        return ob
+    ob["ran"] = True
+    return instantiate_once(p, argv, shape, ob)
+
+
+def run_history(shape, split, variant=0):
+    """ONE real parser used twice: links 1..split, parse + instantiate_classes, the remaining links, parse +
+    instantiate_classes again -> the two observations (each one as if its links were the whole shape)"""
+    sh1 = dict(shape, links=shape["links"][:split])
+    blank = lambda add: {"add": add, "ran": False, "failed": False, "log": [], "final": [], "exc": ""}
+    try:
+        p, argv, add_links = build_base(shape, variant)
+        r1 = add_links(0, split)
+    except Exception as ex:
+        return sh1, blank(["error:build:" + type(ex).__name__]), blank(["error:build:" + type(ex).__name__])
+    ob1, ob2 = blank(r1), blank(r1)
+    if r1 and r1[-1] != "ok":
+        return sh1, ob1, ob2
+    ob1["ran"] = True
+    instantiate_once(p, argv, sh1, ob1)
+    r2 = add_links(split, len(shape["links"]))
+    ob2["add"] = r1 + r2
+    if r2 and r2[-1] != "ok":
+        return sh1, ob1, ob2
+    ob2["ran"] = True
+    instantiate_once(p, argv, shape, ob2)
+    return sh1, ob1, ob2
 
 
 def canon_case(c):
@@ -349,6 +395,28 @@ def _shape_chunk(args):
         if same and acc and c["feasible"]:
             same = ob["failed"] == exp["failed"] and (exp["failed"] or (ob["log"] == exp["log"] and sorted(ob["final"]) == exp["final"]))
         out.append((base + ci, same, ob))
+    return out
+
+
+def canon_log(log):
+    out = []
+    for ev in log:
+        if ev["ev"] == "new":
+            out.append({"ev": "new", "obj": ev["obj"], "kw": sorted([k, v] for k, v in ev["kw"])})
+        else:
+            out.append({"ev": "fn", "link": ev["link"], "args": list(ev["args"])})
+    return out
+
+
+def _hist_chunk(args):
+    cases, base = args
+    out = []
+    for ci, c in enumerate(cases):
+        sh1, ob1, ob2 = run_history(c["shape"], c["split"], variant=base + ci)
+        n = len(c["shape"]["links"])
+        same = (ob1["add"] == ["ok"] * c["split"] and ob1["ran"] and not ob1["failed"] and ob1["log"] == canon_log(c["log1"])
+                and ob2["add"] == ["ok"] * n and ob2["ran"] and not ob2["failed"] and ob2["log"] == canon_log(c["log2"]))
+        out.append((base + ci, same, sh1, ob1, ob2))
     return out
 
 
@@ -416,8 +484,18 @@ def random_shape(rnd):
 
 
 def _random_chunk(args):
+    """every third random shape is run as a history (one parser, two instantiate_classes calls, split by its index)"""
     shapes, base = args
-    return [(base + i, sh, run_shape(sh, variant=base + i)) for i, sh in enumerate(shapes)]
+    out = []
+    for i, sh in enumerate(shapes):
+        n = len(sh["links"])
+        if (base + i) % 3 == 0 and n:
+            split = (base + i) // 3 % (n + 1)
+            sh1, ob1, ob2 = run_history(sh, split, variant=base + i)
+            out.append((base + i, sh, (sh1, ob1, ob2, f"{split}of{n}")))
+        else:
+            out.append((base + i, sh, run_shape(sh, variant=base + i)))
+    return out
 
 
 def run_trace(module, path, expect):
@@ -573,6 +651,45 @@ def main(argv):
             else:
                 machinery_failure(PID, "TLC failed on the machine instance:\n" + mcm.stdout[-3000:])
         timing["machine_mc_joined"] = clock.s()
+        # ------------------------------------------------------------------ part B: histories (one parser, two calls)
+        hcfg = f"MC_LinksInst_hist_{tier}"
+        mch = tlc.run("MC_LinksInst", hcfg, workers=WORKERS, timeout=3000, heap=HEAP)
+        rep.add_tlc(hcfg, mch)
+        hcases = []
+        if mch.errors:
+            if mch.violated:
+                rep.violation("model:history:" + ",".join(mch.violated), f"TLC: {mch.violated} violated in {hcfg}", {"tlc_errors": mch.errors, "counterexample": mch.cex[:4000]})
+            else:
+                machinery_failure(PID, f"TLC failed on {hcfg}:\n" + mch.stdout[-3000:])
+        else:
+            hcases = [p for p in mch.printed if isinstance(p, dict) and p.get("hist")]
+            hseeds = [p for p in mch.printed if isinstance(p, list) and p and p[0] == "HSEEDS"]
+            if not hseeds or len(hcases) != mch.distinct - hseeds[0][1]:
+                machinery_failure(PID, f"{hcfg}: {len(hcases)} emitted histories for {mch.distinct} distinct states (seeds {hseeds})")
+            hcases.sort(key=lambda c: (shape_key(c["shape"]), c["split"]))
+        n_hsame = 0
+        chunks = [(hcases[i:i + 100], i) for i in range(0, len(hcases), 100)]
+        for res in pool.imap_unordered(_hist_chunk, chunks):
+            for idx, same, sh1, ob1, ob2 in res:
+                c = hcases[idx]
+                if same:
+                    n_hsame += 1
+                else:
+                    tag = f"{c['split']}of{len(c['shape']['links'])}"
+                    inst_obs.append((sh1, ob1, "history-first:" + tag))
+                    inst_obs.append((c["shape"], ob2, "history-second:" + tag))
+        for c in hcases:
+            if c["reorders"]:
+                rep.note_nontrivial("H" + shape_key(c["shape"]) + str(c["split"]))
+        rep.extra["histories_emitted"] = len(hcases)
+        rep.extra["histories_identical_to_prediction"] = n_hsame
+        rep.extra["histories_whose_second_call_must_reorder"] = sum(1 for c in hcases if c["reorders"])
+        if hcases:
+            c = next((x for x in hcases if x["reorders"]), hcases[0])
+            rep.sample({"history": True, "shape": c["shape"], "links_before_first_instantiate": c["split"], "spec_log_first": c["log1"], "spec_log_second": c["log2"],
+                        "python": "build_base(shape); add_links(0, split); parse_args; instantiate_classes; add_links(split, n); parse_args; instantiate_classes"})
+        timing["histories"] = clock.s()
+
         # ------------------------------------------------------------------ part B: random shapes beyond the bounds
         nrand = 300 if tier == "quick" else 4000
         shapes = [random_shape(rnd) for _ in range(nrand)]
@@ -582,7 +699,12 @@ def main(argv):
             rand_res += res
         rand_res.sort(key=lambda x: x[0])
         for _i, sh, ob in rand_res:
-            inst_obs.append((sh, ob, "random"))
+            if isinstance(ob, tuple):  # a random history: the two calls
+                sh1, ob1, ob2, tag = ob
+                inst_obs.append((sh1, ob1, "history-first:random:" + tag))
+                inst_obs.append((sh, ob2, "history-second:random:" + tag))
+            else:
+                inst_obs.append((sh, ob, "random"))
             if len(sh["links"]) >= 2:
                 rep.note_nontrivial("R" + shape_key(sh))
         rep.extra["random_shapes"] = nrand
@@ -607,7 +729,7 @@ def main(argv):
             f.unlink()
 
         timing["trace_validation"] = clock.s()
-        rep.traces = n_graph_cases + len(cases) + len(graph_obs) + nrand
+        rep.traces = n_graph_cases + len(cases) + 2 * len(hcases) + len(graph_obs) + nrand
         rep.evaluations = rep.traces
         rep.rule = ("cases = (edge sequence) for the graph part, (parser shape) for the instantiation part; non-trivial & distinct = distinct graphs "
                     "with >= 2 edges, distinct accepted shapes with >= 2 links, distinct random graphs / shapes")
@@ -615,7 +737,8 @@ def main(argv):
         rep.explanation = ("part (a): MC_Links enumerated every digraph on the nodes of its instance (every subset of the ordered pairs, self-loops included "
                            "in the 4-node instance; all 2^20 loop-free graphs on 5 nodes in thorough) with 4 insertion orders each and every insertion order of every graph on 3 nodes, "
                            f"and all {n_graph_cases} (graph, order) cases were replayed on the real DirectedGraph; part (b): MC_LinksInst enumerated every link graph over its templates "
-                           f"({len(cases)} shapes), all replayed through real parsers; {len(graph_obs)} graph and {len(inst_obs)} parser observations (differences, the recorded deviation, seeded random cases "
+                           f"({len(cases)} shapes), all replayed through real parsers, and every split of every acyclic link sequence over three components into two batches "
+                           f"around an instantiate_classes call ({len(hcases)} histories on one parser, property checked after each call); {len(graph_obs)} graph and {len(inst_obs)} parser observations (differences, the recorded deviation, seeded random cases "
                            "beyond the bounds) were validated by TLC against Trace_Links. Exhaustive within these bounds only.")
 
         # ------------------------------------------------------------------ classification
@@ -648,6 +771,9 @@ def main(argv):
                     rep.violation("nested-other:" + ("raises" if ob["failed"] else "log"), "nested link source/target: neither the property nor a recorded deviation", case)
                 elif cl == "ref-add":
                     rep.violation("add:" + "/".join(ob["add"][-1:]) + f":{len(sh['links'])}links", "link_arguments accepted / rejected a link against the cycle rule", case)
+                elif origin.startswith("history"):
+                    rep.violation(f"{origin.split(':')[0]}:{cl[4:]}:{'deep' if any('init_args' in o for o in sh['objs']) else 'flat'}",
+                                  f"instantiate_classes on a parser that is used twice ({origin}): {cl}", case)
                 else:
                     rep.violation(f"inst:{cl[4:]}:{'deep' if any('init_args' in o for o in sh['objs']) else 'flat'}", f"instantiate_classes: {cl}", case)
         return rep.finish()
